@@ -63,7 +63,9 @@ func TestC18_MintNeedsQuorumOnce(t *testing.T) {
 			registered[i] = true
 		}
 		minted := map[int64]bool{}
-		nReq := rapid.IntRange(6, 20).Draw(t, "requests")
+		nReq := rapid.IntRange(6, 32).Draw(t, "requests")
+		var mintedOrder []int64
+		var nextNonce int64
 		nontrivial := 0
 		for r := 0; r < nReq; r++ {
 			if rapid.IntRange(0, 9).Draw(t, "deleteAuthorizer") == 0 && len(registered) > 1 {
@@ -89,17 +91,35 @@ func TestC18_MintNeedsQuorumOnce(t *testing.T) {
 				sub = s.Clients[4+rapid.IntRange(0, 2).Draw(t, "submitter")]
 			}
 			amount := currency.Coin(rapid.SampledFrom([]uint64{conf.MinMint, conf.MinMint - 1, conf.MaxFee, conf.MaxFee - 1, conf.MaxFee + 1, 5e12, 77777777777777, 1e15}).Draw(t, "amount"))
-			nonce := int64(rapid.IntRange(1, 9).Draw(t, "nonce"))
+			// nonces: the next unused one, one that was minted already (replay; the contract packs minted nonces into
+			// partitions of 5, so replays of early ones after >= 6 mints matter), or any small one
+			var nonce int64
+			switch nk := rapid.SampledFrom([]string{"next", "next", "minted", "any", "next", "minted"}).Draw(t, "nonceKind"); {
+			case nk == "minted" && len(mintedOrder) > 0:
+				nonce = mintedOrder[rapid.IntRange(0, len(mintedOrder)-1).Draw(t, "mintedNonce")]
+			case nk == "any":
+				nonce = int64(rapid.IntRange(1, 16).Draw(t, "nonce"))
+			default:
+				nextNonce++
+				nonce = nextNonce
+			}
 			eth := fmt.Sprintf("0xeth%d", rapid.IntRange(0, 3).Draw(t, "eth"))
 			n := rapid.IntRange(0, k+2).Draw(t, "sigs")
+			clean := rapid.IntRange(0, 2).Draw(t, "cleanQuorum") == 1 // every authorizer once, all genuine: keeps successful mints coming
+			if clean {
+				n = k
+			}
 			specs := make([]simzcn.SigSpec, n)
 			forged := false
 			for i := range specs {
 				kind := simzcn.SigValid
-				if rapid.IntRange(0, 2).Draw(t, "invalid") == 0 {
+				if !clean && rapid.IntRange(0, 2).Draw(t, "invalid") == 0 {
 					kind = rapid.SampledFrom(simzcn.SigKinds[1:]).Draw(t, "kind")
 				}
 				specs[i] = simzcn.SigSpec{Authorizer: rapid.IntRange(0, k-1).Draw(t, "auth"), Kind: kind}
+				if clean {
+					specs[i].Authorizer = i
+				}
 				if kind >= simzcn.SigOtherAmount && kind <= simzcn.SigForeignKey {
 					forged = true
 				}
@@ -191,6 +211,10 @@ func TestC18_MintNeedsQuorumOnce(t *testing.T) {
 				t.Fatalf("%s", viol("C18", "nonce-not-recorded", h, "accepted mint did not record its nonce :: %s", what))
 			}
 			minted[nonce] = true
+			mintedOrder = append(mintedOrder, nonce)
+			if len(mintedOrder) > 5 {
+				st.Class("history_with_more_than_5_mints")
+			}
 			gain := int64(after.Bal[recv.ID]) - int64(before.Bal[recv.ID])
 			fee := int64(amount) - gain
 			if fee < 0 || uint64(fee) > conf.MaxFee {
